@@ -194,7 +194,74 @@ func masksFor(h int) []uint64 {
 	return out
 }
 
+// wideHunks: hand-written hunks with 0..3 lines of context on each side ('[' / ']' where the context reaches the
+// array boundary), built to match the array l at position i; the targets decide whether they apply elsewhere.
+func wideHunks(l []interface{}, under bool) []ref.Hunk {
+	var out []ref.Hunk
+	ctx := func(from, n int) ([]V, bool) {
+		var c []V
+		for k := 0; k < n; k++ {
+			pos := from + k
+			switch {
+			case pos == -1 || pos == len(l):
+				c = append(c, ref.Void{})
+			case pos < -1 || pos > len(l):
+				return nil, false
+			default:
+				c = append(c, l[pos])
+			}
+		}
+		return c, true
+	}
+	for i := 0; i <= len(l); i++ {
+		for r := 0; r <= 2 && i+r <= len(l); r++ {
+			for _, add := range [][]V{nil, {9.0}, {9.0, 8.0}} {
+				if r == 0 && len(add) == 0 {
+					continue
+				}
+				for m := 0; m <= 3; m++ {
+					before, ok := ctx(i-m, m)
+					if !ok {
+						continue
+					}
+					for n := 0; n <= 3; n++ {
+						after, ok := ctx(i+r, n)
+						if !ok || (m <= 1 && n <= 1) { // one line each side is the generated form, covered above
+							continue
+						}
+						path := []ref.PE{ref.I(i)}
+						if under {
+							path = []ref.PE{ref.K("k"), ref.I(i)}
+						}
+						out = append(out, ref.Hunk{Path: path, Before: before, Remove: append([]V{}, l[i:i+r]...), Add: add, After: after})
+					}
+				}
+			}
+		}
+	}
+	return out
+}
+
 func enumC03(tier string, e *engine.Emitter) {
+	wl := 3
+	if tier == "thorough" {
+		wl = 4
+	}
+	wide := Arr(wl, "123")
+	for _, under := range []bool{false, true} {
+		for _, lv := range wide.Vals {
+			for _, h := range wideHunks(lv.([]interface{}), under) {
+				x := ref.EncodeHunks([]ref.Hunk{h})
+				for _, tv := range wide.Vals {
+					var t V = tv
+					if under {
+						t = map[string]interface{}{"k": tv}
+					}
+					e.Emit(engine.Case{Kind: "c03w", Leg: "wide-context", C: ref.JSON(t), X: x})
+				}
+			}
+		}
+	}
 	hk := engine.HS("c03")
 	for _, l := range c03Spaces(tier) {
 		isU := l.Name[0] == 'U'
@@ -258,8 +325,12 @@ func runC03(c *engine.Case) engine.Result {
 	var fail string
 	var bucket string
 	p := impl.Guard(func() {
-		d := impl.Read(c.A).Diff(impl.Read(c.B))
-		sub := subDiff(d, mask)
+		var sub jd.Diff
+		if c.Kind == "c03w" {
+			sub = impl.Diff(ref.DecodeHunks(c.X))
+		} else {
+			sub = subDiff(impl.Read(c.A).Diff(impl.Read(c.B)), mask)
+		}
 		hs, err := impl.Hunks(sub)
 		res.Transitions++
 		if err != nil {
@@ -300,6 +371,10 @@ func runC03(c *engine.Case) engine.Result {
 	}
 	res.Bucket = bucket
 	res.Nontrivial = c.C != c.A
+	if c.Kind == "c03w" {
+		res.Bucket = "wide/" + bucket
+		res.Nontrivial = true
+	}
 	res.Violation = fail
 	return res
 }
